@@ -124,11 +124,19 @@ class C02(Check):
         for n in range(n_state):
             directed, assort = rng.random() < 0.5, rng.random() < 0.5
             K = rng.randint(2, 4)
+            if n % 19 == 7:
+                K = rng.choice([1, 8, 31, 32, 33, 40, 65])   # the equations hold for any number of groups
             wt = rng.choice("uuur")
             recs, L = gen.records(rng, wt=wt)
             net = ref.PyNet(recs, L, directed, real=(wt == "r"))
             reach = (net.U, net.V) if rng.random() < 0.6 else None
             u, v, w = gen.random_state(rng, net.N, K, L, assort, directed, reach)
+            if K > 4:
+                # many groups: plain values away from the guards (with hundreds of entries some would sit on a threshold
+                # and the reference map would have to skip the case)
+                u = [x and 0.05 + rng.random() for x in u]
+                v = [x and 0.05 + rng.random() for x in v]
+                w = [0.05 + rng.random() for _ in w]
             cid = "st%d" % n
             cases.append(gen.case_sweep(cid, directed, assort, K, recs, L, wt, net.N, u, v, w))
             meta[cid] = (directed, assort, K, recs, L, wt, net, u, v, w)
